@@ -1,6 +1,8 @@
 """C11 — All query entry points agree with one another on every input."""
 from __future__ import annotations
 
+import copy
+
 import asyncio
 import io
 import json
@@ -137,6 +139,34 @@ def evaluate(ctx, cases):
                     exp = core.canon(base["ok"][0]) if base["ok"] else "none"
                     if got != exp:
                         ctx.violation("match must be the first element of finditer, or nothing when it is empty", {**inp, "form": fname}, got, exp)
+            # one compiled query, the same document OBJECT again after the caller changed it in place (and with another
+            # filter context): every entry point of the compiled query must agree with a fresh evaluation of the text
+            if isinstance(doc, (dict, list)) and ctx.rng.random() < (0.25 if ctx.tier == "quick" else 0.6):
+                d = copy.deepcopy(doc)
+                r0 = core.outcome(lambda: compiled.findall(d))
+                if isinstance(d, dict):
+                    for k in list(d):
+                        v = d[k]
+                        d[k] = (v + 1) if isinstance(v, int) and not isinstance(v, bool) else (v + [v[0]] if isinstance(v, list) and v else v)
+                    d["added-by-caller"] = 1
+                else:
+                    d.reverse()
+                    d.append({"a": 1, "k": 1, "b": 2})
+                ctx.count("edited-document-again")
+                fresh = core.outcome(lambda: jsonpath.findall(text, copy.deepcopy(d)))
+                for name, fn in (("compiled.findall", lambda: compiled.findall(d)), ("compiled.finditer", lambda: [x.obj for x in compiled.finditer(d)]),
+                                 ("compiled.match", lambda: (lambda mm: [] if mm is None else [mm.obj])(compiled.match(d))),
+                                 ("compiled.findall(filter_context)", lambda: compiled.findall(d, filter_context={"v": 7, "x": {"y": 3}, "flag": False, "list": []}))):
+                    r = core.outcome(fn)
+                    want_f = fresh if name != "compiled.findall(filter_context)" else core.outcome(lambda: jsonpath.findall(text, copy.deepcopy(d), filter_context={"v": 7, "x": {"y": 3}, "flag": False, "list": []}))
+                    a = _vals(r["ok"]) if "ok" in r else {"err": r["err"]}
+                    b = _vals(want_f["ok"]) if "ok" in want_f else {"err": want_f["err"]}
+                    if name == "compiled.match":
+                        b = b[:1] if isinstance(b, list) else b
+                    if a != b:
+                        ctx.violation("a compiled query evaluated again on the same document object after the caller edited it must agree with a fresh evaluation of the query text",
+                                      {**inp, "entry": name, "document_now": d}, a if isinstance(a, dict) else a[:8], b if isinstance(b, dict) else b[:8])
+                        break
             # compound specification from the operands' own results: every operand is compiled on its own,
             # from its own text (cut at the union / intersection tokens), and the results are combined
             if hasattr(compiled, "paths") and compiled.paths:
